@@ -38,7 +38,12 @@ func runC36(rc *RC) {
 	if compactBuild {
 		const name = "C36/compact.BuildInMemory"
 		rc.Phase(name)
+		// every goroutine count from 2 to 16 (small counts more often: a build
+		// with many goroutines clears many buffers)
 		n := rc.Range(2, 4)
+		if rc.Pct(40) {
+			n = rc.Range(2, 16)
+		}
 		cpus := rc.Range(1, 4)
 		rc.Knob("goroutines", n)
 		rc.Knob("NumCPU", cpus)
@@ -68,7 +73,7 @@ func runC36(rc *RC) {
 	}
 	const name = "C36/ingest.NewWorldFromSource"
 	rc.Phase(name)
-	n := []int{2, 3, 4, 8, 16}[rc.Draw(5)]
+	n := rc.Range(2, 16)
 	rc.Knob("cores", n)
 	rc.Case("basic", n, fmt.Sprint(specs))
 	build := func(cores int) (b6.World, error) {
